@@ -199,7 +199,7 @@ def r4_settings_first(ctx):
 def r5_writer_users(ctx):
     allowed = {S + "close::{closure#0}", S + "write_with_padding::{closure#0}"}
     n = 0
-    for key, body in ctx.P.bodies.items():
+    for key, body in ctx.P.scan():
         if not key.startswith("session::session::"):
             continue
         o = None
@@ -265,7 +265,7 @@ def _future_calls(t, depth=0):
 def r7_cancellation(ctx):
     """a frame write must run to completion: its future is never handed to a cancelling combinator"""
     n = 0
-    for key, body in ctx.P.bodies.items():
+    for key, body in ctx.P.scan():
         o = None
         for c in body.calls():
             nm = c.norm or ""
